@@ -67,12 +67,13 @@ def check_painted(specs, ds, tf):
 '''
 
 
-def _fn(name, specs, painted=False, absent_idx=(), fasta_like=False, sym_strands=False):
+def _fn(name, specs, painted=False, absent_idx=(), fasta_like=False, sym_strands=False, sym_offsets=False):
     """specs: list of (scaffold, kinds).  Symbolic: all lengths, rounding d per scaffold, tf, fr (and contig strands)"""
     args, pre, spec_src, ds, pres = [], [], [], [], []
     for si, (sname, kinds) in enumerate(specs):
         lens = []
         sts = []
+        offs = []
         for ri, k in enumerate(kinds):
             v = f"{'l' if k == 'F' else 'g'}{si}_{ri}"
             args.append(f"{v}: int")
@@ -81,6 +82,10 @@ def _fn(name, specs, painted=False, absent_idx=(), fasta_like=False, sym_strands
             if k == "F" and sym_strands:
                 args.append(f"cs{si}_{ri}: bool")
                 sts.append(f"(1 if cs{si}_{ri} else -1)")
+            if k == "F" and sym_offsets:
+                args.append(f"o{si}_{ri}: int")
+                pre.append(f"o{si}_{ri} >= 0")
+                offs.append(f"o{si}_{ri}")
         total = " + ".join(lens)
         last = lens[-1]
         args.append(f"d{si}: int")
@@ -94,7 +99,8 @@ def _fn(name, specs, painted=False, absent_idx=(), fasta_like=False, sym_strands
         else:
             pres.append("True")
             pre.append(f"{last} >= tf + fr")
-        spec_src.append(f'("{sname}", "{kinds}", ({", ".join(lens)},)' + (f', ({", ".join(sts)},))' if sym_strands else ")"))
+        spec_src.append(f'("{sname}", "{kinds}", ({", ".join(lens)},)' + (f', ({", ".join(sts)},)' if sym_strands else (", None" if sym_offsets else ""))
+                        + (f', ({", ".join(offs)},)' if sym_offsets else "") + ")")
     args += ["tf: int", "fr: int"]
     pre_lines = ["tf >= 1 and 0 <= fr <= 1"] + pre
     body = (f"check_painted([{', '.join(spec_src)}], [{', '.join(ds)}], tf)" if painted
@@ -125,6 +131,9 @@ QUICK = [
     ("unpainted_FGF_FF_subtexel_FF", [("S1", "FGF"), ("S2", "FF"), ("S3", "FF")], False, (2,), False),
     ("painted_FGF_FF", [("S1", "FGF"), ("S2", "FF")], True, (), False),
     ("unpainted_fasta_like_FGF_FF", [("S1", "FGF"), ("S2", "FF")], False, (), True),
+    ("unpainted_FGF_subtexel_FGF", [("S1", "FGF"), ("S2", "FGF")], False, (1,), False),
+    ("unpainted_contig_coordinate_offsets_FGF_FF", [("S1", "FGF"), ("S2", "FF")], False, (), False, False, True),
+    ("painted_contig_coordinate_offsets_FGF_F", [("S1", "FGF"), ("S2", "F")], True, (), False, False, True),
 ]
 THOROUGH = [
     ("unpainted_FGFGF_subtexel_F", [("S1", "FGFGF"), ("S2", "F")], False, (1,), False),
@@ -137,14 +146,15 @@ THOROUGH = [
 def conditions(tier):
     out = []
     for group, tname, to in ((QUICK, "quick", 600), (THOROUGH, "thorough", 3000)):
-        group = [g if len(g) == 6 else g + (False,) for g in group]
-        src = HEAD + "".join(_fn("t_" + n, sp, p, ab, fl, ss) for (n, sp, p, ab, fl, ss) in group)
-        for (n, sp, p, ab, fl, ss) in group:
+        group = [(g + (False, False))[:7] for g in group]
+        src = HEAD + "".join(_fn("t_" + n, sp, p, ab, fl, ss, so) for (n, sp, p, ab, fl, ss, so) in group)
+        for (n, sp, p, ab, fl, ss, so) in group:
             out.append(Cond(n, src, "t_" + n, to,
                             f"input scaffolds {sp} ({'FASTA-style contig names/coordinates' if fl else 'distinct contig names'}); all contig and gap lengths, the rounding d of every scaffold end "
                             f"(|d| < 1 texel), floor(texel) tf >= 1 and its fractional flag symbolic and unbounded; "
                             + (f"scaffolds {[sp[i][0] for i in ab]} present or (if sub-texel) absent by a symbolic flag; " if ab else "")
-                            + ("every scaffold Painted" if p else "unpainted, untagged") + ("; every contig strand symbolic (+/-)" if ss else ""),
+                            + ("every scaffold Painted" if p else "unpainted, untagged") + ("; every contig strand symbolic (+/-)" if ss else "")
+                            + ("; every contig's own coordinates start at a symbolic offset >= 0 (contig coordinates differ from positions in the scaffold)" if so else ""),
                             tier=tname, encodes=ENC))
     return out
 
